@@ -40,8 +40,10 @@ INS_SIDE = {"l": [None, ("N1", 0), ("N2", 1), ("N1", 1), ("NmA", 0)],
             "r": [None, ("N1s", 0), ("N2", 1), ("Nm", 0), ("N1", 1), ("NmB", 0)]}
 # runs of several inserted cells at one position: dissimilar blocks of unequal
 # length followed / preceded by a similar pair, a common cell, a lone cell
-INS_RUNS = {"l": [None, (("N2", "N3", "N1"), 0), (("N1", "N2"), 0), (("N4", "N1", "N3"), 0), (("N2",), 0)],
-            "r": [None, (("N4", "N1s"), 0), (("N1s", "N3", "N4"), 0), (("Nm", "N4", "N1s", "N2"), 0), (("N2", "N1s"), 0)]}
+INS_RUNS = {"l": [None, (("N2", "N3", "N1"), 0), (("N1", "N2"), 0), (("N4", "N1", "N3"), 0), (("N2",), 0),
+                  (("N2", "N1"), 0)],
+            "r": [None, (("N4", "N1s"), 0), (("N1s", "N3", "N4"), 0), (("Nm", "N4", "N1s", "N2"), 0), (("N2", "N1s"), 0),
+                  (("N4", "N3", "N1s"), 0), (("Nm", "N2", "N4", "N5", "N1s"), 0)]}
 
 
 def mk_args(merge_strategy="inline", input_strategy=None, output_strategy=None,
@@ -149,7 +151,7 @@ def merge_obligations(E, b, l, r, args, tool, props, known, info=None):
         if fid:
             E.known(fid)
             return None
-        if "C03" in props or "C09" in props or "C10" in props:
+        if "C03" in props or "C09" in props or "C10" in props or "C07" in props:
             E.fail("merge-raised", sig)
         return None
     conflicted = any(d.conflict for d in decisions)
@@ -786,7 +788,7 @@ def make_flag(templates, which=0, other_acts="ACTS_INS", tools=TOOLS, props=("C0
 def flag_shards(tier, props, known):
     kw = dict(props=tuple(props), known=tuple(known))
     out = []
-    for t in ["codeA", "codeB", "md", "raw", "codeS", "mdAtt", "codeRes2"]:
+    for t in ["codeA", "codeB", "md", "raw", "codeS", "mdAtt", "codeRes2", "codeL", "codeU"]:
         out.append(("make_flag", "flag-%s" % t, dict(templates=(t,), which=0, **kw)))
     out.append(("make_flag", "flag-pair0", dict(templates=("codeA", "codeB"), which=0, **kw)))
     out.append(("make_flag", "flag-pair1", dict(templates=("codeB", "codeA"), which=1, **kw)))
